@@ -39,6 +39,26 @@ logger = logging.getLogger(__name__)
 SHA1 = 20
 
 
+def _checked(part: str) -> str:
+    """
+    Refuse name or path elements that could lead outside the destination.
+
+    Parameters
+    ----------
+    part : str
+        the torrent name, or one element of a file path, from the metafile
+
+    Returns
+    -------
+    str
+        the same element if it is safe to join below the destination
+    """
+    seps = [sep for sep in (os.sep, os.altsep, "/", "\\") if sep]
+    if part == ".." or os.path.isabs(part) or any(s in part for s in seps):
+        raise ValueError(f"unsafe path element in metafile: {part!r}")
+    return part
+
+
 class PathNode:
     """
     Base class representing information regarding a file included in torrent.
@@ -238,7 +258,7 @@ class Metadata(CbMixin, ProgMixin):
         meta = pyben.load(self.path)
         info = meta["info"]
         self.piece_length = info["piece length"]
-        self.name = info["name"]
+        self.name = _checked(info["name"])
         self.meta_version = info.get("meta version", 1)
         self.pieces = info.get("pieces", bytes())
         if self.meta_version == 2:
@@ -255,7 +275,7 @@ class Metadata(CbMixin, ProgMixin):
             })
         elif "files" in info:
             for f in info["files"]:
-                path = f["path"]
+                path = [_checked(part) for part in f["path"]]
                 full = os.path.join(self.name, *path)
                 self.files.append({
                     "path": Path(full).parent,
@@ -318,6 +338,7 @@ class Metadata(CbMixin, ProgMixin):
             list of paths leading up to the current key value.
         """
         for key, val in tree.items():
+            _checked(key)
             if "" in val:
                 self.filenames.add(key)
                 path = Path(os.path.join(*partials))
